@@ -83,3 +83,39 @@ Print Assumptions C14_algebra_refines. Print Assumptions C14_algebra_rename. Pri
 Print Assumptions C14_simplify. Print Assumptions C14_refines_total. Print Assumptions C14_optimize.
 Print Assumptions C14_contains. Print Assumptions C14_fold. Print Assumptions C14_strings. Print Assumptions C14_strings_no_escape. Print Assumptions C14_json_machine.
 Print Assumptions C14_json_strings. Print Assumptions C14_json_shape. Print Assumptions C14_json_file.
+
+(* ==== T1 tie (JSON side) ==== *)
+Require Import PyDict PyLoop PyJson JsonGen JsonGenBase JsonGenValidate JsonGenDict JsonGenFile.
+(* T1 tie: validate_contract_dict / _check_clause / _is_number (serializer.py), from_dict (polyhedral_iocontract.py) and read_contracts_from_file after json.load (fileio.py) as translated ON THIS RUN (gen/JsonGen.v, dynamic typing over the json inductive, each implicit Python exception raised where Python raises it) ARE model/Json.v, about which the C14_json_* theorems speak. proofs/JsonGen*.v *)
+Theorem C14_code_is_number :
+  forall v : json, serializer__is_number v = is_number v.
+Proof. exact @is_number_eq. Qed.
+Print Assumptions C14_code_is_number.
+Theorem C14_code_check_clause :
+  forall clause : json, serializer__check_clause clause = check_clause clause.
+Proof. exact @check_clause_eq. Qed.
+Print Assumptions C14_code_check_clause.
+Theorem C14_code_validate_contract_dict :
+  forall (contract : json) (machine : bool),
+       serializer_validate_contract_dict contract machine = validate_contract_dict contract machine.
+Proof. exact @validate_contract_dict_eq. Qed.
+Print Assumptions C14_code_validate_contract_dict.
+Theorem C14_code_from_dict :
+  forall (s2f : string -> option Q) (pstr : json -> string)
+         (init : list pterm -> list pterm -> list var -> list var -> bool -> M pcontract) 
+         (contract : json) (simplify : bool),
+       (forall (a g : list pterm) (i o : list var), init a g i o simplify = pc_init a g i o) ->
+       json_wf contract ->
+       PolyhedralIoContract_from_dict s2f pstr init contract simplify = from_dict s2f pstr contract.
+Proof. exact @from_dict_eq. Qed.
+Print Assumptions C14_code_from_dict.
+Theorem C14_code_read_file :
+  forall (s2f : string -> option Q) (pstr : json -> string)
+         (init : list pterm -> list pterm -> list var -> list var -> bool -> M pcontract) 
+         (file_data : json),
+       (forall (a g : list pterm) (i o : list var), init a g i o true = pc_init a g i o) ->
+       json_wf file_data ->
+       mmap pair_up (fileio_read_contracts_from_file s2f pstr init strings_boundary compound_boundary file_data) =
+       read_file s2f pstr file_data.
+Proof. exact @read_file_eq. Qed.
+Print Assumptions C14_code_read_file.
